@@ -326,6 +326,7 @@ type Fin struct {
 	Extra    []string `json:"extra,omitempty"`
 	Prior    string   `json:"prior,omitempty"` // the chain value already ran count | noop_updates | find before ...
 	Clone    string   `json:"clone,omitempty"` // ... it was derived again through session | withctx | debug
+	Late     bool     `json:"late,omitempty"`  // Unscoped is called after the prior use, not before
 }
 
 // Run executes chain+finisher on a fresh chain from e.DB and observes.
@@ -365,7 +366,7 @@ func (e *Env) Run(chain []Unit, fin Fin, soft bool) (Obs, error) {
 			tx = tx.Table(tname(soft))
 		}
 	}
-	if fin.Unscoped {
+	if fin.Unscoped && !(fin.Late && fin.Prior != "") {
 		tx = tx.Unscoped()
 	}
 	model := func(pk int64) interface{} { return newModel(soft, pk) }
@@ -388,6 +389,9 @@ func (e *Env) Run(chain []Unit, fin Fin, soft bool) (Obs, error) {
 			tx = tx.WithContext(context.Background())
 		case "debug":
 			tx = tx.Debug()
+		}
+		if fin.Unscoped && fin.Late {
+			tx = tx.Unscoped()
 		}
 	}
 	e.Rec.Reset()
